@@ -333,11 +333,12 @@ class SchemaBuilder(
         dependent_required = {f: reqs for f, reqs in dependent_required.items() if reqs}
         result = []
         if discriminator_parent := get_discriminated_parent(cls):
-            discriminator_ref = self.ref_schema(
-                get_type_name(discriminator_parent).json_schema
-            )
-            assert discriminator_ref is not None
-            result.append(discriminator_ref)
+            if discriminator_parent is not cls:  # (the parent doesn't refer to itself)
+                discriminator_ref = self.ref_schema(
+                    get_type_name(discriminator_parent).json_schema
+                )
+                assert discriminator_ref is not None
+                result.append(discriminator_ref)
             additional_properties = True
         result.append(
             json_schema(
